@@ -278,9 +278,40 @@ func c53Case(t *testing.T, rec *kit.Rec, ci int) {
 			g.muts[0] = "left-empty"
 		}
 	default:
+		// every third pair carries "twin" directories: two directories with identical tree blobs
+		// that change in exactly the same way between the snapshots (directories of hard links,
+		// cp -al style copies). Each must be reported on its own (seeded change C53-1).
+		twins := ci%3 == 1
+		if twins {
+			tw := g.dir("twin-1", 1, 6)
+			tw2 := c53Clone(tw)
+			tw2.Name = "twin-2"
+			left.Children = append(left.Children, tw, tw2)
+		}
 		right = c53Clone(left)
 		for k := rng.Range(1, 6); k > 0; k-- {
 			g.mutate(right)
+		}
+		if twins {
+			var t1 *vdNode
+			i2 := -1
+			for i, ch := range right.Children {
+				if ch.Name == "twin-1" && ch.Type == data.NodeTypeDir {
+					t1 = ch
+				}
+				if ch.Name == "twin-2" {
+					i2 = i
+				}
+			}
+			if t1 != nil && i2 >= 0 {
+				for k := rng.Range(1, 3); k > 0; k-- {
+					g.mutate(t1)
+				}
+				cp := c53Clone(t1)
+				cp.Name = "twin-2"
+				right.Children[i2] = cp
+				g.muts = append(g.muts, "twin-directories-changed-identically")
+			}
 		}
 	}
 	rp := &c53Replay{Case: ci, Muts: g.muts, Metadata: rng.Chance(1, 3), JSON: !rng.Chance(1, 4)}
